@@ -8,16 +8,16 @@ def run(tier, seed):
     try:
         from contracts import wave_kernels_c, wave_c
         from pyvc.verify import verify
-        res.report = verify(wave_kernels_c.targets_c13() + wave_c.targets(), timeout_s=30 if tier == 'quick' else 120)
+        res.report = verify(wave_kernels_c.targets_c13() + wave_kernels_c.targets_level() + wave_c.targets(), timeout_s=30 if tier == 'quick' else 120)
     except ImportError:
         res.report = None
     res.explanation = ('Tier P (unbounded, from the current source): wave_capture_cpu and wave_capture_gpu are proved against folds over the waveform (initial value, earliest / latest '
                        'finite entry, parity = final value, value captured at T = parity of the entries strictly before T, overflow marker), for sd = 0; _wave_eval returns '
                        'nfall = floor(n/2) and nrise = ceil(n/2) - [first entry is TMIN] (Q4) and propagates the overflow marker as max of the operand terminators (Q6); '
-                       'level_eval_cpu / wave_eval_gpu add nrise*wr + nfall*wf to abuf[a_loc, sim] exactly once per (op, sim). Tier B (bounded): the same on real runs incl. '
+                       'level_eval_cpu (two nested loops, ghost recurrence ACC) and one thread of wave_eval_gpu add nrise*wr + nfall*wf to abuf[a_loc, sim] and evaluate every (op, sim) pair of the range exactly once (ghost call counter), checked against the contract of _wave_eval at the call site. Tier B (bounded): the same on real runs incl. '
                        '"indicator clear => waveform identical to unlimited capacity" (relational in the capacity) and the a_ctrl plumbing through SimOps.')
     res.bounded = [wave_parts.part_c13(tier, seed)]
     res.assumptions = ['sd = 0 (the erf branch of the capture is outside the modelled subset)', 'extended-real model of float32 time stamps (A-float); integers mathematical',
-                       'capacity-independence of non-overflowing runs and SimOps a_ctrl translation: bounded part only', 'mock GPU only']
+                       'capacity-independence of non-overflowing runs and SimOps a_ctrl translation: bounded part only', 'integers mathematical (int32 accumulation overflow not modelled)', 'mock GPU only']
     res.trusted_base = ['pyvc', 'z3 5.1.0', 'bounded/wave_parts.py']
     return res
